@@ -106,6 +106,7 @@ Qed.
 Theorem tucker_mode_dot_matrix core fs M k kd core' fs' idx j :
   tucker_mode_dot Op core fs (OpMat M) k kd = Ok (core', fs') ->
   length idx = length fs -> j < length M ->
+  cp_shape fs' = set_nth k (length M) (cp_shape fs) /\
   tucker_entry Op core' fs' (set_nth k j idx) =
   Sum (length (nth k fs [])) (fun i => mget Op M j i *f tucker_entry Op core fs (set_nth k i idx)).
 Proof.
@@ -113,6 +114,7 @@ Proof.
   apply andb_true_iff in H0. destruct H0 as [Hok Hk]. apply Nat.ltb_lt in Hk.
   unfold tucker_okb in Hok. apply andb_true_iff in Hok. destruct Hok as [Hok Hfs].
   destruct (rectb _ M); [|discriminate]. intros E Hi Hj. injection E as <- <-.
+  split; [rewrite cp_shape_set; now rewrite (length_matmul Op)|].
   pose proof (factors_okb_length _ _ Hfs) as Hl. destruct (factors_okb_nth _ _ k Hfs Hk) as [Hc Hne].
   unfold tucker_entry. apply tk_lin; try lia.
   intros r Hr. apply (mget_matmul Op); lia.
@@ -130,7 +132,7 @@ Proof.
   split; [apply cp_shape_set|].
   assert (E : tucker_mode_dot Op core fs (OpMat [v]) k true = Ok (core, set_nth k [vecmat Op v (nth k fs [])] fs)).
   { unfold tucker_mode_dot. rewrite H0. cbn [rectb forallb]. rewrite Hv. reflexivity. }
-  rewrite (tucker_mode_dot_matrix _ _ _ _ _ _ _ idx 0 E Hi) by (simpl; lia). reflexivity.
+  destruct (tucker_mode_dot_matrix _ _ _ _ _ _ _ idx 0 E Hi) as [_ T]; [simpl; lia|]. rewrite T. reflexivity.
 Qed.
 
 Theorem tucker_mode_dot_vector_contract core fs v k core' fs' idx' :
